@@ -71,6 +71,36 @@ prop('C20', 'proof',
      'with calculateTime on a boundary grid + random points, and the property is evaluated directly on the C++ outputs',
      'three IEEE-754 facts as hypotheses (not axioms); ' + TIE, 'Lean 4 theorems parametric in float operations + exact differential on integer outputs', '§6 C20')
 
+SEARCH_TIE = ('tie to the code = CHESSPP_VERIF hooks (add-only) emit the search events; every hooked run is fed to the Lean trace acceptor (Model/SearchTrace.lean) and its '
+              'printed info/bestmove lines to the rules spec; harness runs under ASan+UBSan; ')
+prop('C05', 'proof',
+     'Lean theorems over the search-trace automaton (one guard per code site that lets a move into a move list, a pv or _best_move): an accepted trace ends in exactly one BESTMOVE naming a root move '
+     'and every reported pv is a legal line. Tie: trace acceptance of real searches under adversarial schedules (stop after exactly k node visits, at every schedule point) and adversarially '
+     'poisoned transposition tables, searches from inside games, tiny/negative clocks, searchmoves subsets; the printed bestmove/pv are checked against the rules spec; a rejected trace triggers a hunt',
+     SEARCH_TIE + 'positions with >= 1 legal move; ' + TIE, 'Lean 4 theorems over a trace-acceptor automaton + trace acceptance of instrumented searches', '§6 C05')
+prop('C06', 'proof',
+     'PARTIAL by nature: Lean theorems over a two-thread handshake model (stop never lost, exactly one bestmove within a bounded number of search-thread steps, isready answered, no racing step pair when the '
+     'flag is atomic). Tie: stop() delivered at exactly the k-th node visit and at every schedule point in-process (trace must show no node expanded afterwards), the REAL two-thread UCI front end driven '
+     'through pipes with the search thread parked at each schedule point, and the same sessions under ThreadSanitizer (supporting evidence only)',
+     SEARCH_TIE + 'seq_cst atomics, OS fairness; wall-clock promptness is measured (< 2 s), not proved; ' + TIE,
+     'Lean 4 theorems over a two-thread transition system + schedule-point enumeration on the real code', '§6 C06')
+prop('C08', 'proof',
+     'PARTIAL by nature: the global claim is not a theorem of this pruning search. Proved in Lean: score algebra (mate range, per-ply adjustment, plies->moves printing) and that no value beyond VALUE_MATE '
+     'leaves an accepted trace. Explored: every final "score mate y" (|y| <= 3) of searches on solver-generated mate-in-1/2 positions, warm-table follow-ups along the engine\'s own line, corpus and pawn '
+     'endings is checked by the spec\'s exhaustive mate solver; mate-in-one must be played',
+     SEARCH_TIE + 'solver node budget (verdict unknown is not a failure); ' + TIE, 'Lean 4 theorems (score algebra, trace bound) + exhaustive mate-solver oracle on instrumented searches', '§6 C08')
+prop('C09', 'proof',
+     'Lean theorems over the iteration loop of the trace automaton: depths 1..k consecutive, bestmove after the last iteration, BEST_SET only from the root list (= searchmoves). Tie: trace acceptance + spec '
+     'check of the printed depth sequence and bestmove for depth values 1..2^31-1, depth combined with time/node limits, random searchmoves subsets incl. after deeper searches and poisoned tables; '
+     'time/clock/node-limited searches must return within the timeout',
+     SEARCH_TIE + 'termination of the aspiration re-search loop is observed, not proved; ' + TIE, 'Lean 4 theorems over the iteration automaton + trace acceptance', '§6 C09')
+prop('C10', 'proof',
+     'PARTIAL by nature: memory safety is not a theorem about a functional model. Proved in Lean: index bounds of the modelled fixed-size tables. Explored under ASan+UBSan: boundary sessions of every '
+     'buffer (924-ply game, depth limits up to 2^31-1, the 218-move position through generate/san/go, promotions to a 10th piece of a kind, ucinewgame cycles, go in terminal positions), stack index '
+     'from the hooks, state lines compared with the model',
+     'sanitizers see only the explored sessions; uninitialised reads only where UBSan/ASan can see them (no MSan); ' + TIE,
+     'Lean 4 bound theorems + sanitizer runs on boundary sessions', '§6 C10')
+
 PENDING = {
     'C05': 'search trace acceptor not built yet (in progress, DESIGN §6 C05)',
     'C06': 'handshake model and schedule hooks not built yet (in progress, DESIGN §6 C06)',
